@@ -412,6 +412,7 @@ def run(prop, tier, replay=None):
                     results[r["case"]] = r["got"]
 
     if p.returncode != 0:
+        sys.stderr.write("pure_runner exited with %s; last output:\n%s\n" % (p.returncode, p.stdout[-1500:]))
         # the code under test took the whole process down (abort, stack overflow): that is data.
         # Re-run one case at a time, appending results, and pin each crash on the case it happened in.
         if os.path.exists(rp):
